@@ -240,14 +240,32 @@ func c14MultiDestOne(ctx *Ctx, md *c14MultiDest) {
 	}
 	c := r.AllocateCounter("c", map[string]string{"k": "v"})
 	sinkOpen := true
-	for i := 0; i < md.Rounds && len(panics) == 0; i++ {
+	hang := ""
+	// a call that does not come back within 30 s is the verdict (a reporter whose consumer
+	// has stopped blocks Flush for ever): the call is left behind in its goroutine
+	bounded := func(what string, f func()) {
+		fin := make(chan struct{})
+		go func() {
+			defer close(fin)
+			guard(what, f)
+		}()
+		select {
+		case <-fin:
+		case <-time.After(30 * time.Second):
+			hang = what + " did not return within 30 s:\n" + c14Trim(m3Stacks())
+		}
+	}
+	for i := 0; i < md.Rounds && len(panics) == 0 && hang == ""; i++ {
 		if md.CloseSink && i == md.Rounds/2 {
 			sink.Close()
 			sinkOpen = false
 		}
 		before := sink.Len()
-		guard("ReportCount", func() { c.ReportCount(int64(1000 + i)) })
-		guard("Flush", r.Flush)
+		bounded(fmt.Sprintf("ReportCount of round %d", i), func() { c.ReportCount(int64(1000 + i)) })
+		if hang != "" {
+			break
+		}
+		bounded(fmt.Sprintf("Flush of round %d", i), r.Flush)
 		for k := 0; sinkOpen && k < 200 && sink.Len() == before; k++ {
 			time.Sleep(250 * time.Microsecond)
 		}
@@ -256,20 +274,21 @@ func c14MultiDestOne(ctx *Ctx, md *c14MultiDest) {
 		}
 	}
 	nils := 0
-	hang := ""
-	done := make(chan struct{})
-	go func() {
-		defer close(done)
-		guard("Close", func() {
-			if r.Close() == nil {
-				nils++
-			}
-		})
-	}()
-	select {
-	case <-done:
-	case <-time.After(30 * time.Second):
-		hang = "Close did not return within 30 s:\n" + c14Trim(m3Stacks())
+	if hang == "" {
+		done := make(chan struct{})
+		go func() {
+			defer close(done)
+			guard("Close", func() {
+				if r.Close() == nil {
+					nils++
+				}
+			})
+		}()
+		select {
+		case <-done:
+		case <-time.After(30 * time.Second):
+			hang = "Close did not return within 30 s:\n" + c14Trim(m3Stacks())
+		}
 	}
 	cls := fmt.Sprintf("multi-destination dests=%d", 1+len(md.Dests))
 	ctx.Case(md, "", cls, hashOf(md))
